@@ -94,6 +94,14 @@ PROPS = {
                    ' Property copies for bare-value overrides, run-time enum growth (mixins): bounded / not covered'],
         bounded=[CB('isolation-contracts', 'contracts/isolation.py', 'gens_isolation')],
     ),
+    'C10': dict(
+        contract_files=['contracts/config.py'],
+        level='proof',
+        trusted_base=COMMON_TRUSTED + ['parameter descriptor (setattr) and write_<p> methods abstract; hasDatatype / set_datatype abstract'],
+        uncovered=['config DSL, property application and error aggregation (rejected as a whole), datainfo after overrides: not covered;'
+                   ' writes exactly once before the first poll: bounded stand-in'],
+        bounded=[CB('config-contracts', 'contracts/config.py', 'gens_config')],
+    ),
     'C07': dict(
         contract_files=['contracts/protocol.py'],
         level='proof',
